@@ -26,10 +26,10 @@ func TestMain(m *testing.M) {
 		}
 		os.Exit(Driver(os.Getenv("PQSIM_PROP"), tier, seed))
 	case "replay":
-		if core.NeedsT(os.Getenv("PQSIM_REPLAY")) {
-			os.Exit(m.Run()) // -test.run ^TestReplay$ must be given
-		}
-		os.Exit(ReplayFile(os.Getenv("PQSIM_REPLAY"), os.Getenv("PQSIM_QUIET") != ""))
+		// run through the testing framework: scheduler scenarios need a *testing.T
+		replayStatus = -1
+		m.Run()
+		os.Exit(replayStatus)
 	case "selftest":
 		os.Exit(SelfTest(os.Getenv("PQSIM_PROP")))
 	}
@@ -47,4 +47,13 @@ func TestWorker(t *testing.T) {
 	}
 }
 
-func TestNothing(t *testing.T) {}
+var replayStatus = 0
+
+// TestNothing is the entry point for replay mode (selected with -test.run '^TestNothing$').
+func TestNothing(t *testing.T) {
+	if os.Getenv("PQSIM_MODE") != "replay" {
+		return
+	}
+	core.T = t
+	replayStatus = ReplayFile(os.Getenv("PQSIM_REPLAY"), os.Getenv("PQSIM_QUIET") != "")
+}
